@@ -177,6 +177,9 @@ class OpacityCache(Singleton):
         """
         GlobalCache()['xsec_interpolation'] = interpolation_mode
         self.clear_cache()
+        # k-tables read the same setting when they are constructed
+        from .ktablecache import KTableCache
+        KTableCache().clear_cache()
     
     
 
